@@ -311,6 +311,9 @@ def run(tier, seed):
                                 {"kind": "pipe", "fname": fname, "text": text}))
     # through main(): one representative per distinct pipeline outcome (and the clean ones)
     reps = [(f, t) for f, t in seeds[:10]] + [(m[0], m[1]) for m in list(merged.values())[:30]]
+    # fatal inputs whose offending token spans lines: the fatal diagnostic is one line all the same
+    reps += [("multi.c", "# /* a\n b */ define X 1\n"), ("multi.c", "int\tmain(void)\n{\n\t) /* a\n b */ (\n}\n"),
+             ("multi.h", "#include /* x\ny */\n")]
     cres = explore.pmap(progrun.cli_text, [(f, t, ["--no-colors"]) for f, t in reps], chunksize=2)
     for (f, t), o in zip(reps, cres):
         st.runs += 1
@@ -323,6 +326,9 @@ def run(tier, seed):
             lines = [l for l in o["stdout"].split("\n") if l.strip()]
             if not lines or not (any(l.endswith(("OK!", "Error!")) for l in lines)):
                 bad = f"no verdict line: {o['stdout'][-100:]!r}"
+            elif o["code"] not in (0, None) and lines and lines[-1].startswith("\t") is False and len(lines) >= 2 \
+                    and lines[-2].startswith("\t") and not lines[-1].startswith(("Error", "Notice")) and not lines[-1].endswith(("OK!", "Error!")):
+                bad = f"fatal-diagnostic-spans-lines: {lines[-2:]!r}"
         if bad and not any(fl.payload.get("text") == t for fl in failures):
             failures.append(Failure("C05", "main:" + bad.split(" ")[0], bad, {"kind": "cli", "fname": f, "text": t}))
     st.states = nstr + len(seeds)
